@@ -187,6 +187,50 @@ def language(p) -> Optional[Set[str]]:
     return langs
 
 
+def samples(p, unroll: int = 2, cap: int = 600) -> Optional[Set[str]]:
+    """Texts of an unbounded language with every loop taken at most `unroll` times beyond its minimum (a finite subset of the
+    language; every member is a text the pattern matches, so a verdict on a member is a verdict on a real input)."""
+    langs: Set[str] = {''}
+    for op, av in p:
+        if op is sre_c.LITERAL:
+            nxt = {chr(av)}
+        elif op is sre_c.IN:
+            cs = _in_chars(av)
+            if cs is None:
+                return None
+            nxt = set(sorted(cs)[:3])
+        elif op is sre_c.BRANCH:
+            nxt = set()
+            for alt in av[1]:
+                l = samples(alt, unroll, cap)
+                if l is None:
+                    return None
+                nxt |= l
+        elif op is sre_c.SUBPATTERN:
+            l = samples(av[3], unroll, cap)
+            if l is None:
+                return None
+            nxt = l
+        elif op in (sre_c.MAX_REPEAT, sre_c.MIN_REPEAT):
+            lo, hi, sub = av
+            top = lo + unroll if hi is sre_c.MAXREPEAT else min(hi, lo + unroll)
+            l = samples(sub, unroll, cap)
+            if l is None:
+                return None
+            nxt = set()
+            cur = {''}
+            for n in range(0, top + 1):
+                if n >= lo:
+                    nxt |= cur
+                cur = set(sorted({a + b for a in cur for b in l}, key=lambda x: (len(x), x))[:cap])
+        elif op is sre_c.AT:
+            nxt = {''}
+        else:
+            return None
+        langs = set(sorted({a + b for a in langs for b in nxt}, key=lambda x: (len(x), x))[:cap])
+    return langs
+
+
 def alternatives(rx: str) -> List[Tuple[str, Any]]:
     """Top-level alternatives of a regex as (description, parsed sub-pattern)."""
     p = parse_regex(rx)
@@ -447,6 +491,59 @@ def _nullable(p) -> bool:
     return True
 
 
+def _membership_retyping(F: Facts, name: str, rm, reserved: Dict[str, str]) -> bool:
+    """The keyword idiom spelled with a test:  t.type = D[t.value] if t.value in K else '<NAME>'  (possibly through a helper),
+    K being the keys of D (the dict itself, a frozenset / tuple / list made of them).  Fills `reserved` from D."""
+    tparam = ('param', rm.rule.func.args.args[0].arg)
+    val = ('attr', tparam, 'value')
+    table = None
+    n_default = n_keyed = 0
+
+    def value_of(t):
+        if isinstance(t, tuple) and t[:2] == ('ref', 'modvar') and len(t) == 3:
+            mod, _, var = t[2].rpartition('.')
+            try:
+                return module_value(F, F.modules[mod], var)
+            except (NotLiteral, KeyError):
+                return None
+        return None
+
+    def tested(assumptions):
+        """(K, truth) of the membership test of t.value on this path."""
+        for c, v in assumptions:
+            neg = False
+            while isinstance(c, tuple) and c[:1] == ('not',):
+                c, neg = c[1], not neg
+            if isinstance(c, tuple) and c[:1] == ('cmp',) and c[1] in ('in', 'not in') and c[2] == val:
+                truth = (v != neg) if c[1] == 'in' else (v == neg)
+                return value_of(c[3]), truth
+        return None, None
+    if not rm.type_paths:
+        return False
+    for te, assumptions in rm.type_paths:
+        K, truth = tested(assumptions)
+        if K is None:
+            return False
+        if isinstance(te, tuple) and te[:1] == ('sub',) and te[2] == val and truth is True:
+            D = value_of(te[1])
+            if not isinstance(D, dict) or set(D) != set(K) or (table is not None and D != table):
+                return False
+            table = D
+            n_keyed += 1
+        elif te == ('const', name) and truth is False:
+            n_default += 1
+            if table is not None and set(K) != set(table):
+                return False
+        else:
+            return False
+    if table is None or not n_default or not n_keyed:
+        return False
+    if not all(isinstance(k, str) and isinstance(v, str) for k, v in table.items()):
+        return False
+    reserved.update(table)
+    return True
+
+
 # ------------------------------------------------------------------ the model
 @dataclass
 class RuleModel:
@@ -459,6 +556,8 @@ class RuleModel:
     returns_token: Optional[str] = None  # 'always' | 'never' | 'sometimes'
     value_changed: bool = False
     type_expr: Any = None                # term stored into t.type, if any
+    type_paths: List[Any] = field(default_factory=list)     # (term stored into t.type, assumptions of that path)
+    samples: Optional[Set[str]] = None   # unbounded language: its members with every loop taken at most twice
 
 
 @dataclass
@@ -514,6 +613,8 @@ def build(F: Facts, g: Optional[Grammar] = None) -> LexModel:
     for r in spec.rules:
         p = parse_regex(r.regex)
         rm = RuleModel(r, p, language(p), can_contain(p, '\n'))
+        if rm.texts is None and rm.newline:
+            rm.samples = samples(p)
         if r.func is not None:
             fi = FuncInfo(spec.module.name + '.t_' + r.name, spec.module, r.func, captured=r.closure)
             tparam = ('param', r.func.args.args[0].arg) if r.func.args.args else None
@@ -534,6 +635,7 @@ def build(F: Facts, g: Optional[Grammar] = None) -> LexModel:
                             rm.value_changed = True
                         if e.attr == 'type':
                             rm.type_expr = freeze(e.value) if e.kind == 'store_attr' else ('unknown', 'aug')
+                            rm.type_paths.append((rm.type_expr, [(freeze(c_), v_) for c_, v_, _ in pth.assumptions]))
             if 'other' in rets:
                 raise AnalysisError('lexer: rule t_%s returns something that is neither its token nor None' % r.name)
             rm.returns_token = 'always' if rets and all(x == 'tok' for x in rets) else (
@@ -562,6 +664,8 @@ def build(F: Facts, g: Optional[Grammar] = None) -> LexModel:
                 if isinstance(table, dict) and all(isinstance(k, str) and isinstance(v, str) for k, v in table.items()):
                     reserved.update(table)
                     ok = True
+        if not ok:
+            ok = _membership_retyping(F, name, rm, reserved)
         if not ok:
             raise AnalysisError('lexer: rule t_%s assigns t.type = %s, an idiom the model does not know '
                                 '(expected <keyword dict>.get(t.value, %r))' % (name, show(te), name))
